@@ -85,7 +85,16 @@ func classifyRace(rep string) (string, bool) {
 	var names []string
 	for _, st := range stacks[:2] {
 		found := ""
-		for _, f := range st {
+		for i, f := range st {
+			if strings.HasPrefix(f, "verif.local/simrt.") && !strings.HasPrefix(f, "verif.local/simrt/simnet") {
+				// The woven wrappers (simrt.Send/Recv/Close/Select/MapKeys/Mutex...) stand for the
+				// program's own channel, map and lock operations: they are transparent, except when
+				// the reported access is the scheduler's own slice bookkeeping.
+				if i > 0 && (strings.HasPrefix(st[0], "runtime.growslice") || strings.HasPrefix(st[0], "runtime.slicecopy")) {
+					return "", false
+				}
+				continue
+			}
 			if strings.HasPrefix(f, "verif.local/") {
 				return "", false
 			}
